@@ -355,7 +355,8 @@ def ok_C03(ctx, snap):
     for x, v in fixed_stops(m).items():
         if x in seen and pos[x][0] != v:
             fails.append("fixed stop s%d is on vehicle %d, not on its vehicle %d" % (x, pos[x][0], v))
-        if x not in seen and snap.get("_started_with", {}).get(x):
+        if x not in seen:
+            # a solution is only created when every fixed initial stop could be kept, and nothing may remove it later
             fails.append("fixed stop s%d left its vehicle %d" % (x, v))
     return fails
 
